@@ -42,7 +42,7 @@ ASSUMPTIONS = ["numpy's RandomState is a function of its seed in every process (
                "entropy audit: no source other than the modelled np.random functions and set iteration in the generator (checked mechanically on every run; rendering is out of scope)"]
 BOUNDS = dict(quick="firewall stage: 3 hosts, 2-3 services, restrictiveness 1..2, symbolic host configurations; vulnerability stage 3 hosts; whole generate() on the tiny parameter set run twice",
               thorough="adds 4 hosts and 3 services with restrictiveness 2..3")
-MODELLED_RANDOM = {'rand', 'seed', 'choice', 'randint', 'random_sample', 'poisson'}
+MODELLED_RANDOM = {'rand', 'seed', 'choice', 'randint', 'random_sample', 'random', 'uniform', 'poisson'}
 AUDIT_DIRS = ['nasim/envs', 'nasim/scenarios', 'nasim/__init__.py']
 AUDIT_EXCLUDE = ['nasim/envs/render.py']
 
@@ -254,12 +254,15 @@ def run(src, q):
     r.capped = False
     if st == 'glue_twice':
         outs = []
+        seed_ = src.int('seed', 0, None)
+        r.seed_logs = []
         for k in range(2):
             with genh.stream(src, cap=80) as rnd:
                 g = m_gen.ScenarioGenerator()
                 with stubs.sut():
                     sc = g.generate(q['n'], q['S'], num_os=q['O'], num_processes=q['P'], uniform=True,
-                                    restrictiveness=1, seed=3)
+                                    restrictiveness=1, seed=seed_)
+            r.seed_logs.append([x for x in rnd.log if x[0] == 'seed'])
             outs.append(sc)
         r.outs = outs
         return r
@@ -340,7 +343,10 @@ def obligations(r):
         return c19.obligations(r)
     if st == 'glue_twice':
         a, b = (_scenario_plain(x) for x in r.outs)
-        return [('same_parameters_and_stream_give_same_scenario', _eq_struct(a, b))]
+        seeded = [z3.And(z3.BoolVal(len(l) == 1 and l[0][1] is not None), sx.znum(l[0][1]) == z3.Int('seed'))
+                  if len(l) == 1 and l[0][1] is not None else z3.BoolVal(False) for l in r.seed_logs]
+        return [('same_parameters_and_stream_give_same_scenario', _eq_struct(a, b)),
+                ('every_seed_value_seeds_the_generator', z3.And(seeded))]
     return [('output_independent_of_set_iteration_order', _eq_struct(r.outs[0], r.outs[1]))]
 
 
